@@ -119,8 +119,10 @@ func init() {
 	}})
 	concCovers := []string{"conc/some-accepted", "conc/all-accepted-same-log"}
 	reg(&checkSpec{ID: "C05", Assumptions: append([]string{"yield points: every sync.(RW)Mutex operation and every database/sql operation; code between yield points is atomic (lock discipline)", "A-db with a single pooled connection (cmd/omniwitness sets MaxOpenConns(1))"}, commonAssumptions...), Runs: []runSpec{
-		{Harness: pkgWitness + ".VerifConcurrent", Quick: p("threads", 2, "logs", 1, "signers", 1, "maxproof", 1, "store", 0), Thorough: p("threads", 3, "logs", 2, "signers", 1, "maxproof", 1, "store", 0), Covers: append([]string{"conc/storage-conflict"}, concCovers...)},
-		{Harness: pkgWitness + ".VerifConcurrent", Quick: p("threads", 2, "logs", 1, "signers", 1, "maxproof", 1, "store", 1), Thorough: p("threads", 3, "logs", 2, "signers", 1, "maxproof", 1, "store", 1), Covers: concCovers},
+		{Harness: pkgWitness + ".VerifConcurrent", Quick: p("threads", 2, "logs", 2, "signers", 1, "maxproof", 1, "store", 0), Thorough: p("threads", 2, "logs", 2, "signers", 2, "maxproof", 2, "store", 0), Covers: append([]string{"conc/storage-conflict"}, concCovers...)},
+		{Harness: pkgWitness + ".VerifConcurrent", Quick: p("threads", 2, "logs", 2, "signers", 1, "maxproof", 1, "store", 1), Thorough: p("threads", 2, "logs", 2, "signers", 2, "maxproof", 2, "store", 1), Covers: concCovers},
+		{Harness: pkgWitness + ".VerifConcurrent", OnlyThorough: true, Thorough: p("threads", 3, "logs", 1, "signers", 1, "maxproof", 0, "store", 0), Covers: append([]string{"conc/storage-conflict"}, concCovers...)},
+		{Harness: pkgWitness + ".VerifConcurrent", OnlyThorough: true, Thorough: p("threads", 3, "logs", 1, "signers", 1, "maxproof", 0, "store", 1), Covers: concCovers},
 	}})
 	reg(&checkSpec{ID: "C08", Assumptions: append([]string{"the stored checkpoint, if any, is a checkpoint of the same honest log (representation invariant; its preservation by every accepted update is the first obligation)", "witness signers do not fail"}, commonAssumptions...), Runs: []runSpec{
 		updRun(updQ, updT),
